@@ -127,6 +127,14 @@ def gen_scenario(r, cfg):
             live.append(k)
             for _ in range(r.pick([0, 0, 1, 2, 3, 5, 6])):
                 ops.append((0, "get", [k]))
+            if cfg["mem"] is not None and r.chance(1, 4):
+                # one large value after several small ones: a single store that has to evict two or more residents
+                v += 1
+                k = nextkey % (cap + 3)
+                nextkey += 1
+                big = max(s for s in SIZES if s <= cfg["mem"])
+                ops.append((r.pick(steps), "insm", [k, v, big]))
+                live.append(k)
             if live and r.chance(1, 2):
                 k2 = r.pick(live[-(cap + 1):])
                 for _ in range(1 + r.below(3)):
